@@ -5,6 +5,7 @@ package main
 import (
 	"bytes"
 	"math/rand"
+	"os"
 	"runtime"
 	"strconv"
 	"sync"
@@ -68,6 +69,7 @@ type tracer struct {
 	rng     *rand.Rand
 	yield   float64
 	control bool // gate-controlled (replay) mode
+	lastEv  time.Time // time of the last logged event (record mode: keeps the heartbeat alive while events keep coming)
 	cond    *sync.Cond
 	quiesce bool
 	late    int // events after quiesce (premature time-out indicator)
@@ -129,6 +131,7 @@ func (t *tracer) cid(ch chan process.Message) []int {
 }
 
 func (t *tracer) emit(e Ev) {
+	t.lastEv = time.Now()
 	t.seq++
 	e.Seq = t.seq
 	if e.P == nil {
@@ -509,7 +512,32 @@ func (t *tracer) collect() ([]Ev, int) {
 func execTraced(t *tracer, re *process.RuntimeEnvironment, procs []*process.Process, sched [][]int) (int, string) {
 	if len(sched) == 0 {
 		install(t)
+		// The interpreter declares quiescence after 50 ms without a heartbeat, which a loaded machine can exceed in the middle
+		// of a run. While hook events keep arriving, the recorder therefore adds heartbeats of its own, so that quiescence is
+		// declared only after settleMs without any event (runs are judged at quiescence, never on how fast they got there).
+		settle := 300 * time.Millisecond
+		if v, err := strconv.Atoi(os.Getenv("VERIF_SETTLE_MS")); err == nil && v >= 0 {
+			settle = time.Duration(v) * time.Millisecond
+		}
+		stop := make(chan struct{})
+		go func() {
+			for {
+				select {
+				case <-stop:
+					return
+				default:
+				}
+				t.mu.Lock()
+				recent := !t.quiesce && !t.lastEv.IsZero() && time.Since(t.lastEv) < settle
+				t.mu.Unlock()
+				if recent {
+					process.VerifKeepAlive(re)
+				}
+				time.Sleep(4 * time.Millisecond)
+			}
+		}()
 		process.InitializeProcesses(procs, nil, nil, re)
+		close(stop)
 		return -1, ""
 	}
 	done := make(chan struct{})
